@@ -65,11 +65,21 @@ func (f *FileIO) Sent(file sts.Sent) {
 }
 
 func (f *FileIO) wasWritten(relPath, hash string, after time.Time, before time.Time) bool {
-	strings := []string{relPath}
+	// A record starts with the file name followed by the separator, so match
+	// that exactly (a name contained in another name is not a match) and look
+	// at every record of that name (it may have been logged more than once,
+	// with different hashes)
+	prefix := relPath + ":"
+	hashField := ""
 	if hash != "" {
-		strings = append(strings, fmt.Sprintf(":%s:", hash))
+		hashField = fmt.Sprintf(":%s:", hash)
 	}
-	return f.logger.search(strings, after, before)
+	return f.logger.eachLine(func(line string) bool {
+		if !strings.HasPrefix(line, prefix) {
+			return false
+		}
+		return hashField == "" || strings.Contains(line[len(relPath):], hashField)
+	}, after, before)
 }
 
 // WasSent tries to find the path specified between the times specified
